@@ -228,3 +228,22 @@ package cluster
 //@   requires c.cfg.RpcRetries >= 1
 //@   ensures result == nil ==> callres(Go, 1, 0).Error == nil
 //@   loop 1 invariant i >= 0 && (i == 0 || retryErr != nil || i < c.cfg.RpcRetries) && unheld(c.rpcClientsMu)
+
+// ---- collection point quota (property C15): refused before anything is created or written ----
+//@ spec sumPC(s []shardInfo, n int) int64 = ite(n <= 0, 0, sumPC(s, n-1) + s[n-1].PointCount)
+// assumed of the shard infos a collection reports: one entry per distinct shard id, sizes and
+// point counts are not negative (and far from the int64 range)
+//@ func (*ClusterNode).GetShardsInfo
+//@   trusted
+//@   pure
+//@   allocates
+//@   ensures forall(a, 0, len(result0), forall(b, 0, len(result0), a != b ==> result0[a].Id != result0[b].Id))
+//@   ensures forall(a, 0, len(result0), result0[a].PointCount >= 0 && result0[a].PointCount <= 4611686018427387904 && result0[a].Size >= 0 && result0[a].Size <= 4611686018427387904)
+//@ func (*ClusterNode).InsertPoints
+//@   property C15
+//@   safety -overflow -panic -slice -index
+//@   requires c.cfg.MaxShardPointCount >= 1 && c.cfg.MaxShardPointCount <= 4611686018427387904 && c.cfg.MaxShardSize >= 0 && c.cfg.MaxShardSize <= 4611686018427387904
+//@   before SortFunc requires sumPC(shards, len(shards)) + int64(len(points)) <= col.UserPlan.MaxCollectionPointCount
+//@   before distributePoints requires sumPC(shards, len(shards)) + int64(len(points)) <= col.UserPlan.MaxCollectionPointCount
+//@   ensures callres(GetShardsInfo, 1, 1) != nil ==> result1 != nil && ncalls(distributePoints) == 0
+//@   loop 1 invariant rangeindex >= -1 && rangeindex < len(shards) && totalPoints == sumPC(shards, rangeindex+1)
